@@ -73,22 +73,54 @@ def _stmt_lines(fn):
 
 
 def _branches(fn):
-    """[(line of the branch head, kind, first line of the branch body, is_error_branch)] for if / elif / else / for-else /
-    try-except / loop bodies"""
+    """[(line of the branch head, kind, first line of the branch body, is_error_branch, source text of the condition)] for
+    if / elif / else / for-else / try-except / loop bodies"""
     out = []
+
+    def txt(node):
+        try:
+            return ast.unparse(node)[:90]
+        except Exception:
+            return '?'
     for node in ast.walk(fn):
         if isinstance(node, ast.If):
-            out.append((node.lineno, 'if', node.body[0].lineno, _is_error_stmt(node.body[0])))
+            out.append((node.lineno, 'if', node.body[0].lineno, _is_error_stmt(node.body[0]), 'if ' + txt(node.test)))
             if node.orelse and not (len(node.orelse) == 1 and isinstance(node.orelse[0], ast.If)):
-                out.append((node.lineno, 'else', node.orelse[0].lineno, _is_error_stmt(node.orelse[0])))
+                out.append((node.lineno, 'else', node.orelse[0].lineno, _is_error_stmt(node.orelse[0]), 'else of: if ' + txt(node.test)))
         elif isinstance(node, (ast.For, ast.While)):
-            out.append((node.lineno, 'loop', node.body[0].lineno, False))
+            head = ('for %s in %s' % (txt(node.target), txt(node.iter))) if isinstance(node, ast.For) else 'while ' + txt(node.test)
+            out.append((node.lineno, 'loop', node.body[0].lineno, False, head))
             if node.orelse:
-                out.append((node.lineno, 'loop-else', node.orelse[0].lineno, _is_error_stmt(node.orelse[0])))
+                out.append((node.lineno, 'loop-else', node.orelse[0].lineno, _is_error_stmt(node.orelse[0]), 'else of: ' + head))
         elif isinstance(node, ast.Try):
             for h in node.handlers:
-                out.append((node.lineno, 'except', h.body[0].lineno, _is_error_stmt(h.body[-1]) or _is_error_stmt(h.body[0])))
+                out.append((node.lineno, 'except', h.body[0].lineno, _is_error_stmt(h.body[-1]) or _is_error_stmt(h.body[0]),
+                            'except ' + (txt(h.type) if h.type is not None else '')))
     return sorted(set(out))
+
+
+# branches (item, source text of the condition) that no valid input of the property reaches, or that lie outside it: reason
+EXCLUDED_BRANCHES = {
+    ('exact_diag.ExactDiag._exceeds_max_size', 'if size > self.max_size'): 'size guard (max_size): the exporters are used below the limit',
+    ('exact_diag.ExactDiag.build_full_H_from_mpo', 'if self._exceeds_max_size()'): 'size guard (max_size)',
+    ('exact_diag.ExactDiag.build_full_H_from_bonds', 'if self._exceeds_max_size()'): 'size guard (max_size)',
+    ('model.CouplingMPOModel.init_lattice', 'if helical is not None'): 'HelicalLattice wrapper: lattice geometry is property C19',
+    ('model.CouplingMPOModel.init_lattice', 'if irregular_remove is not None'): 'IrregularLattice wrapper: lattice geometry is property C19',
+    ('model.CouplingMPOModel.init_lattice', 'if isinstance(check_lat, IrregularLattice)'): 'lattice wrappers (C19)',
+    ('model.CouplingMPOModel.init_lattice', 'if isinstance(check_lat, HelicalLattice)'): 'lattice wrappers (C19)',
+    ('model.CouplingMPOModel.init_lattice', 'if isinstance(check_lat, MultiSpeciesLattice)'): 'lattice wrappers (C19)',
+    ('model.CouplingMPOModel.init_lattice', 'if species_sites is not None'): 'MultiSpeciesLattice: reached only by the model classes that use it',
+    ('model.Model.copy', "if hasattr(self, '_rng')"): 'random generator of a model: no representation of the Hamiltonian',
+    ('terms.ExponentiallyDecayingTerms.add_centered_exponentially_decaying_term', 'if i < 0'):
+        'CouplingModel.add_exponentially_decaying_centered_terms normalises a negative i before (its own branch is reached)',
+    ('terms.ExponentiallyDecayingTerms.add_to_graph', 'if label[1] == key'): 'name clash of graph states with a user-given key (key stays at its default)',
+    ('terms.ExponentiallyDecayingTerms.add_to_graph', 'except Exception'): 'labels of other graph states that are not tuples (skipped on purpose)',
+    ('terms.ExponentiallyDecayingTerms.add_to_graph', 'while (key_nr, key) in all_states'): 'name clash of graph states',
+    ('terms.ExponentiallyDecayingTerms.to_TermList', 'if abs(pref) < cutoff'): None,
+    ('terms.MultiCouplingTerms.multi_coupling_term_handle_JW', "if op_string == 'JW'"): "documented as 'probably not what you want' (warning branch)",
+    ('terms.order_combine_term', 'if N > 100'): 'warning for terms of more than 100 operators',
+    ('model._warn_post_init_add', "if hasattr(self, 'H_MPO') and (not getattr(self, 'manually_call_init_H', False))"): None,
+}
 
 
 def enumerate_items(repo):
@@ -103,8 +135,10 @@ def enumerate_items(repo):
         def add(name, fn, public):
             a = fn.args
             params = [x.arg for x in a.posonlyargs + a.args + a.kwonlyargs if x.arg not in ('self', 'cls')]
+            pos = a.posonlyargs + a.args
+            options = [x.arg for x in pos[len(pos) - len(a.defaults):]] + [x.arg for x, d in zip(a.kwonlyargs, a.kw_defaults) if d is not None]
             items[name] = {'file': rel, 'line': fn.lineno, 'public': public, 'lines': _stmt_lines(fn),
-                           'branches': _branches(fn), 'params': params}
+                           'branches': _branches(fn), 'params': params, 'options': options}
         for node in tree.body:
             if isinstance(node, ast.FunctionDef):
                 add('%s.%s' % (mod, node.name), node, not node.name.startswith('_'))
@@ -116,6 +150,43 @@ def enumerate_items(repo):
     return items
 
 
+# optional parameters that deliberately stay at their default: reason
+EXCLUDED_OPTIONS = {
+    ('exact_diag.ExactDiag.__init__', 'max_size'): 'size guard (warning branch), not a representation option',
+    ('terms.OnsiteTerms.add_to_nn_bond_Arrays', 'distribute'): 'calc_H_bond always uses (0.5, 0.5); other splittings are not reachable through the model API',
+    ('terms.ExponentiallyDecayingTerms.add_to_graph', 'key'): 'internal name of the MPO graph states',
+    ('terms.CouplingTerms.coupling_term_handle_JW', 'op_string'): 'helper behind add_local_term / TermList, which pass None (the explicit strings go through add_coupling)',
+    ('terms.OnsiteTerms.remove_zeros', 'tol_zero'): None, ('terms.CouplingTerms.remove_zeros', 'tol_zero'): None,
+    ('terms.MultiCouplingTerms.remove_zeros', 'tol_zero'): None,
+    ('model.NearestNeighborModel.calc_H_MPO_from_bond', 'tol_zero'): 'numerical zero threshold of the SVD of the bond operators (not a representation option)',
+    ('model.MPOModel.calc_H_bond_from_MPO', 'tol_zero'): 'numerical zero threshold of the consistency check',
+}
+
+
+def option_table(repo, seen):
+    """{item: {option: [kinds of values seen]}} for all reached public items with optional parameters; returns (table, list of
+    (item, option) that never left the default and are not excluded)"""
+    items = enumerate_items(repo)
+    tab, stuck = {}, []
+    for name, it in sorted(items.items()):
+        if not it['public'] or not it['options']:
+            continue
+        short = name.split('.')[-1]
+        if name in EXCLUDED or short in EXCLUDED_METHOD_NAMES:
+            continue
+        row = {}
+        for o in it['options']:
+            vals = sorted((seen.get(name) or {}).get(o, []))
+            row[o] = vals
+            if not [v for v in vals if v != 'default']:
+                if (name, o) in EXCLUDED_OPTIONS:
+                    row[o] = vals + ['(excluded: %s)' % (EXCLUDED_OPTIONS[(name, o)] or 'numerical zero threshold, exercised through calc_H_MPO / calc_H_bond(tol_zero)')]
+                else:
+                    stuck.append('%s(%s=)' % (name, o))
+        tab[name] = row
+    return tab, stuck
+
+
 def table(repo, hits):
     """coverage table from the recorded line hits {file: [lines]}:
     returns (table {item: row}, unclassified public items not reached, summary dict)"""
@@ -124,8 +195,8 @@ def table(repo, hits):
     tab = {}
     unclassified = []
     n_reached = n_excl = n_pub = 0
-    br_tot = br_hit = br_err = br_err_hit = 0
-    unreached_branches = []
+    br_tot = br_hit = br_err = br_err_hit = br_excl = 0
+    unreached_branches, excluded_branches = [], []
     for name, it in sorted(items.items()):
         h = hit.get(it['file'], set())
         lines = it['lines']
@@ -137,7 +208,7 @@ def table(repo, hits):
         if name in EXCLUDED or short in EXCLUDED_METHOD_NAMES:
             row['excluded'] = excl or 'private helper'
         bs = []
-        for head, kind, first, is_err in it['branches']:
+        for head, kind, first, is_err, cond in it['branches']:
             ok = first in h
             if is_err:
                 br_err += 1
@@ -146,8 +217,13 @@ def table(repo, hits):
                 br_tot += 1
                 br_hit += ok
                 if not ok and reached and 'excluded' not in row:
-                    bs.append('%s@%d' % (kind, head))
-                    unreached_branches.append('%s:%s@%d' % (name, kind, head))
+                    if (name, cond) in EXCLUDED_BRANCHES:
+                        br_excl += 1
+                        excluded_branches.append('%s: %s  [%s]' % (name, cond, EXCLUDED_BRANCHES[(name, cond)] or
+                                                                  'approximate export with cutoff > 0 (finite systems are exported with cutoff = 0)'))
+                    else:
+                        bs.append('%s' % cond)
+                        unreached_branches.append('%s: %s' % (name, cond))
         if bs:
             row['unreached_branches'] = bs
         if it['public']:
@@ -160,6 +236,7 @@ def table(repo, hits):
                 unclassified.append(name)
         tab[name] = row
     summary = {'public_items': n_pub, 'reached': n_reached, 'excluded_not_reached': n_excl, 'unclassified_unreached': len(unclassified),
-               'branches_reached': '%d/%d' % (br_hit, br_tot), 'error_branches_reached': '%d/%d' % (br_err_hit, br_err),
-               'unreached_branches': unreached_branches}
+               'branches_reached': '%d/%d' % (br_hit, br_tot), 'branches_excluded': br_excl,
+               'error_branches_reached': '%d/%d (raise / assert False / return NotImplemented branches: invalid inputs)' % (br_err_hit, br_err),
+               'unreached_branches': unreached_branches, 'excluded_branches': excluded_branches}
     return tab, unclassified, summary
